@@ -522,7 +522,7 @@ func StoresTo(fn *ssa.Function, owner, field string) []*ssa.Store {
 		if s == nil || s.Field(fa.Field).Name() != field {
 			return
 		}
-		if owner != "" && typeName(fa.X.Type()) != owner {
+		if owner != "" && !ownerIs(typeName(fa.X.Type()), owner) {
 			return
 		}
 		out = append(out, st)
